@@ -43,6 +43,8 @@ type Env struct {
 	shards []*strings.Builder
 	header string
 	nCases int
+	// ShardSize: cases per Coq file (shards are evaluated in parallel)
+	ShardSize int
 	// per-case JSON description for replay files
 	Cases []json.RawMessage
 	// replay: when non-nil, runners execute exactly this case instead of generating
@@ -134,13 +136,16 @@ func (e *Env) Scale(q, t int) int {
 // Header sets the Coq prelude of every shard (imports, scopes).
 func (e *Env) Header(h string) { e.header = h }
 
-const casesPerShard = 40
 
 // AddCase appends one case: `term` is a Coq term of the property's case type,
 // `checker` the Coq function  Z -> case -> list diff ; desc is the replay description.
 func (e *Env) AddCase(checker, term string, desc any) int {
 	idx := e.nCases
 	e.nCases++
+	if e.ShardSize <= 0 {
+		e.ShardSize = 40
+	}
+	casesPerShard := e.ShardSize
 	sh := idx / casesPerShard
 	for len(e.shards) <= sh {
 		b := &strings.Builder{}
@@ -164,6 +169,7 @@ func (e *Env) Finish() {
 		panic("VERIF_OUT not set")
 	}
 	os.MkdirAll(e.OutDir, 0o755)
+	casesPerShard := e.ShardSize
 	for i, b := range e.shards {
 		lo := i * casesPerShard
 		hi := lo + casesPerShard
